@@ -531,7 +531,7 @@ func encOptBool(e *enc, p *bool) {
 		e.n(1).bool(*p)
 	}
 }
-func encOptInt(e *enc, p *int) {
+func encOptIntStl(e *enc, p *int) {
 	if p == nil {
 		e.n(0)
 	} else {
@@ -558,8 +558,8 @@ func encSTLRun(e *enc, li astisub.LineItem) {
 	encOptBool(e, sa.TeletextDoubleHeight)
 	encOptBool(e, sa.TeletextDoubleSize)
 	encOptBool(e, sa.TeletextDoubleWidth)
-	encOptInt(e, sa.TeletextSpacesBefore)
-	encOptInt(e, sa.TeletextSpacesAfter)
+	encOptIntStl(e, sa.TeletextSpacesBefore)
+	encOptIntStl(e, sa.TeletextSpacesAfter)
 }
 
 func encSTLLines(e *enc, ls []astisub.Line) {
